@@ -1,1 +1,2 @@
 import DurableModel
+import Proofs.Lock
